@@ -1146,7 +1146,11 @@ class BodyVisitor:
     v_SetComp = v_ListComp
 
     def v_For(self, n, sc, lits):
-        if self.is_set_expr(n.iter, sc):
+        if self.is_set_expr(n.iter, sc) and assert_only(n.body):
+            # category derived from the AST: the loop body only asserts / logs, no value flows out of the iteration
+            # (the order can at most select which assertion message is raised) -> not an ordered consumption
+            self.A.stats["hash_order_loops_assert_only"] = self.A.stats.get("hash_order_loops_assert_only", 0) + 1
+        elif self.is_set_expr(n.iter, sc):
             brk = own_break(n.body, with_return=True)
             self.A.eff(sc.node, "HashOrderIter", lits, "%s for-loop over a set%s" % (
                 self.where(sc, n), " left early (break/return)" if brk else ""),
@@ -1305,6 +1309,19 @@ class BodyVisitor:
                        tag=(text + how) if "class-level mutable" in text else "")
         else:
             self.A.eff(sc.node, "ModuleGlobalWrite", lits, "%s %s%s" % (self.where(sc, st), text, how))
+
+
+def assert_only(body):
+    for st in body:
+        if isinstance(st, (ast.Assert, ast.Pass)):
+            continue
+        if isinstance(st, ast.Expr) and isinstance(st.value, ast.Call) and isinstance(st.value.func, ast.Attribute) \
+                and isinstance(st.value.func.value, ast.Name) and st.value.func.value.id in ("logger", "logging"):
+            continue
+        if isinstance(st, ast.Expr) and isinstance(st.value, ast.Constant):
+            continue
+        return False
+    return bool(body)
 
 
 def own_break(body, with_return=False):
@@ -2178,6 +2195,7 @@ def emit(A, out_path, sidecar_path=None):
                 calls_of_callable_valued_attributes=A.stats.get("calls_of_callable_valued_attributes", 0),
                 functools_partial_sites=A.stats.get("functools_partial_sites", 0),
                 mutable_default_arguments=A.stats.get("mutable_default_arguments", 0),
+                hash_order_loops_assert_only=A.stats.get("hash_order_loops_assert_only", 0),
                 lambda_sites=A.stats.get("lambda_sites", 0),
                 nested_function_definitions=sum(1 for f in A.funcs.values() for n in ast.walk(f.node)
                                                 if isinstance(n, (ast.FunctionDef, ast.AsyncFunctionDef)) and n is not f.node),
